@@ -725,7 +725,7 @@ fn parse_json_filter(input: &[u8], output: &mut [u8]) -> Result<(usize, usize), 
         eat_whitespace_and_commas(input, &mut inpos);
 
         // Check for end
-        if input[inpos] == b'}' {
+        if peek(input, inpos)? == b'}' {
             inpos += 1;
             break;
         }
@@ -842,6 +842,9 @@ fn parse_json_filter(input: &[u8], output: &mut [u8]) -> Result<(usize, usize), 
             inpos += 1; // pass the hash
 
             // Mark this position (on the letter itself)
+            if num_tag_fields >= start_tags.len() {
+                return Err(InnerError::JsonBadFilter("Too many tag fields", inpos).into());
+            }
             start_tags[num_tag_fields] = inpos;
             num_tag_fields += 1;
 
@@ -871,7 +874,7 @@ fn parse_json_filter(input: &[u8], output: &mut [u8]) -> Result<(usize, usize), 
         // `inpos` is right after the open bracket of the array
         loop {
             eat_whitespace_and_commas(input, &mut inpos);
-            if input[inpos] == b']' {
+            if peek(input, inpos)? == b']' {
                 break;
             }
             if num_ids == u16::MAX {
@@ -892,7 +895,7 @@ fn parse_json_filter(input: &[u8], output: &mut [u8]) -> Result<(usize, usize), 
         // `inpos` is right after the open bracket of the array
         loop {
             eat_whitespace_and_commas(input, &mut inpos);
-            if input[inpos] == b']' {
+            if peek(input, inpos)? == b']' {
                 break;
             }
             if num_authors == u16::MAX {
@@ -917,7 +920,7 @@ fn parse_json_filter(input: &[u8], output: &mut [u8]) -> Result<(usize, usize), 
         // `inpos` is right after the open bracket of the array
         loop {
             eat_whitespace_and_commas(input, &mut inpos);
-            if input[inpos] == b']' {
+            if peek(input, inpos)? == b']' {
                 break;
             }
             let u = read_u64(input, &mut inpos)?;
@@ -983,7 +986,7 @@ fn parse_json_filter(input: &[u8], output: &mut [u8]) -> Result<(usize, usize), 
             let mut count: u16 = 1; // the tag letter itself counts
             loop {
                 eat_whitespace_and_commas(input, &mut inpos);
-                if input[inpos] == b']' {
+                if peek(input, inpos)? == b']' {
                     break;
                 }
                 verify_char(input, b'"', &mut inpos)?;
